@@ -2,4 +2,695 @@ import SwcVerif.Model.Dsu
 /-! Helper lemmas about the union-find / checker models (C18). -/
 namespace Dsu
 
+@[simp] theorem updN_same (f : Nat → Nat) (k v : Nat) : updN f k v k = v := by simp [updN]
+theorem updN_other (f : Nat → Nat) (k v j : Nat) (h : j ≠ k) : updN f k v j = f j := by simp [updN, h]
+
+/-- root by plain pointer chasing, same fuel discipline as `find` -/
+def rootOf : Nat → (Nat → Nat) → Nat → Nat
+  | 0, par, x => par x
+  | f+1, par, x => if par x = x then x else rootOf f par (par x)
+
+/-- invariant: ranks strictly increase along parent pointers and are bounded by `B` -/
+structure DInv (par rank : Nat → Nat) (B : Nat) : Prop where
+  incr : ∀ x, par x ≠ x → rank x < rank (par x)
+  bnd  : ∀ x, rank x ≤ B
+
+theorem rootOf_succ (f : Nat) (par : Nat → Nat) (x : Nat) :
+    rootOf (f+1) par x = if par x = x then x else rootOf f par (par x) := rfl
+
+theorem rootOf_self {par : Nat → Nat} {x : Nat} (h : par x = x) : ∀ f, rootOf f par x = x := by
+  intro f; cases f <;> simp [rootOf, h]
+
+theorem rootOf_is_root {par rank : Nat → Nat} {B : Nat} (h : DInv par rank B) :
+    ∀ (f x : Nat), B - rank x < f → par (rootOf f par x) = rootOf f par x := by
+  intro f
+  induction f with
+  | zero => intro x hx; omega
+  | succ f ih =>
+    intro x hx
+    simp only [rootOf]
+    split
+    · assumption
+    · rename_i hne
+      apply ih
+      have := h.incr x hne
+      have := h.bnd (par x)
+      omega
+
+/-- enough fuel: result independent of the amount of fuel -/
+theorem rootOf_fuel {par rank : Nat → Nat} {B : Nat} (h : DInv par rank B) :
+    ∀ (f g x : Nat), B - rank x < f → B - rank x < g → rootOf f par x = rootOf g par x := by
+  intro f
+  induction f with
+  | zero => intro g x hx; omega
+  | succ f ih =>
+    intro g x hf hg
+    cases g with
+    | zero => omega
+    | succ g =>
+      simp only [rootOf]
+      split
+      · rfl
+      · rename_i hne
+        have := h.incr x hne
+        have := h.bnd (par x)
+        apply ih <;> omega
+
+theorem rank_le_root {par rank : Nat → Nat} {B : Nat} (h : DInv par rank B) :
+    ∀ (f x : Nat), B - rank x < f → rank x ≤ rank (rootOf f par x) := by
+  intro f
+  induction f with
+  | zero => intro x hx; omega
+  | succ f ih =>
+    intro x hx
+    simp only [rootOf]
+    split
+    · exact Nat.le_refl _
+    · rename_i hne
+      have h1 := h.incr x hne
+      have h2 := h.bnd (par x)
+      have := ih (par x) (by omega)
+      omega
+
+/-- `find` returns the root, -/
+theorem find_root {par rank : Nat → Nat} {B : Nat} (h : DInv par rank B) :
+    ∀ (f x : Nat), B - rank x < f → (find f par x).2 = rootOf f par x := by
+  intro f
+  induction f with
+  | zero => intro x hx; omega
+  | succ f ih =>
+    intro x hx
+    simp only [find, rootOf]
+    split
+    · rfl
+    · rename_i hne
+      have := h.incr x hne
+      have := h.bnd (par x)
+      exact ih (par x) (by omega)
+
+/-- and every cell it rewrites is rewritten to a root reachable from that cell -/
+theorem find_par {par rank : Nat → Nat} {B : Nat} (h : DInv par rank B) :
+    ∀ (f x : Nat), B - rank x < f →
+      ∀ y, (find f par x).1 y = par y ∨
+           ((find f par x).1 y = rootOf (B + 1) par y ∧ par y ≠ y) := by
+  intro f
+  induction f with
+  | zero => intro x hx; omega
+  | succ f ih =>
+    intro x hx y
+    simp only [find]
+    split
+    · left; rfl
+    · rename_i hne
+      have h1 := h.incr x hne
+      have h2 := h.bnd (par x)
+      by_cases hy : y = x
+      · subst hy
+        right
+        refine ⟨?_, hne⟩
+        simp only [updN_same]
+        rw [find_root h f (par y) (by omega)]
+        have e1 : rootOf (B+1) par y = rootOf f par (par y) := by
+          have : rootOf (B+1) par y = rootOf (f+1) par y :=
+            rootOf_fuel h (B+1) (f+1) y (by omega) (by omega)
+          rw [this]; simp [rootOf, hne]
+        exact e1.symm
+      · have e : (updN (find f par (par x)).1 x (find f par (par x)).2, (find f par (par x)).2).1 y
+            = (find f par (par x)).1 y := updN_other _ _ _ _ hy
+        rw [e]
+        exact ih (par x) (by omega) y
+
+/-- compression preserves the invariant -/
+theorem find_inv {par rank : Nat → Nat} {B : Nat} (h : DInv par rank B) (f x : Nat)
+    (hf : B - rank x < f) : DInv (find f par x).1 rank B := by
+  refine ⟨?_, h.bnd⟩
+  intro y hy
+  rcases find_par h f x hf y with e | ⟨e, hne⟩
+  · rw [e] at hy ⊢; exact h.incr y hy
+  · rw [e]
+    have h1 := h.incr y hne
+    have h2 := h.bnd (par y)
+    have e1 : rootOf (B+1) par y = rootOf B par (par y) := by
+      simp [rootOf, hne]
+    rw [e1]
+    have := rank_le_root h B (par y) (by omega)
+    omega
+
+/-- compression preserves every node's root -/
+theorem find_rootOf {par rank : Nat → Nat} {B : Nat} (h : DInv par rank B) (f x : Nat)
+    (hf : B - rank x < f) :
+    ∀ (g y : Nat), B - rank y < g →
+      rootOf g (find f par x).1 y = rootOf (B+1) par y := by
+  intro g
+  induction g with
+  | zero => intro y hy; omega
+  | succ g ih =>
+    intro y hy
+    have hroot : par (rootOf (B+1) par y) = rootOf (B+1) par y :=
+      rootOf_is_root h (B+1) y (by omega)
+    rw [rootOf_succ g]
+    rcases find_par h f x hf y with e | ⟨e, hne⟩
+    · rw [e]
+      by_cases hp : par y = y
+      · rw [if_pos hp, rootOf_succ B par y, if_pos hp]
+      · rw [if_neg hp]
+        have h1 := h.incr y hp
+        have h2 := h.bnd (par y)
+        rw [ih (par y) (by omega), rootOf_succ B par y, if_neg hp]
+        exact rootOf_fuel h (B+1) B (par y) (by omega) (by omega)
+    · rw [e]
+      by_cases hp : rootOf (B+1) par y = y
+      · rw [if_pos hp]; exact hp.symm
+      · rw [if_neg hp]
+        have hr : (find f par x).1 (rootOf (B+1) par y) = rootOf (B+1) par y := by
+          rcases find_par h f x hf (rootOf (B+1) par y) with e' | ⟨_, hne'⟩
+          · rw [e', hroot]
+          · exact absurd hroot hne'
+        cases g with
+        | zero =>
+          have h1 := h.incr y hne
+          have h2 := h.bnd (par y)
+          omega
+        | succ g => rw [rootOf_succ g, if_pos hr]
+
+/-- the two `find`s of `same` / `union`: invariant kept, every root kept, the answers are the roots -/
+theorem find2 {par rank : Nat → Nat} {B : Nat} (h : DInv par rank B) (a b : Nat) :
+    DInv (find (B+1) (find (B+1) par a).1 b).1 rank B ∧
+    (∀ g y, B - rank y < g → rootOf g (find (B+1) (find (B+1) par a).1 b).1 y = rootOf (B+1) par y) ∧
+    (find (B+1) par a).2 = rootOf (B+1) par a ∧
+    (find (B+1) (find (B+1) par a).1 b).2 = rootOf (B+1) par b := by
+  have ha : B - rank a < B + 1 := by omega
+  have hb : B - rank b < B + 1 := by omega
+  have i1 := find_inv h (B+1) a ha
+  have i2 := find_inv i1 (B+1) b hb
+  refine ⟨i2, ?_, find_root h _ _ ha, ?_⟩
+  · intro g y hg
+    rw [find_rootOf i1 (B+1) b hb g y hg]
+    exact find_rootOf h (B+1) a ha (B+1) y (by omega)
+  · rw [find_root i1 _ _ hb]
+    exact find_rootOf h (B+1) a ha (B+1) b hb
+
+/-- re-pointing the root `r1` to the root `r2`: every node whose root was `r1` now has root `r2`,
+all other roots are unchanged -/
+theorem rootOf_link {par rank par' rank' : Nat → Nat} {B B' r1 r2 : Nat}
+    (h : DInv par rank B) (h' : DInv par' rank' B') (hp : par' = updN par r1 r2)
+    (h1 : par r1 = r1) (h2 : par r2 = r2) (hne : r1 ≠ r2) :
+    ∀ (f z : Nat), B - rank z < f →
+      rootOf (B'+1) par' z = if rootOf f par z = r1 then r2 else rootOf f par z := by
+  have hr2 : par' r2 = r2 := by rw [hp, updN_other _ _ _ _ (Ne.symm hne), h2]
+  have hr1 : par' r1 = r2 := by rw [hp, updN_same]
+  intro f
+  induction f with
+  | zero => intro z hz; omega
+  | succ f ih =>
+    intro z hz
+    rw [rootOf_succ f par z]
+    by_cases hpz : par z = z
+    · rw [if_pos hpz]
+      by_cases hz1 : z = r1
+      · subst hz1
+        rw [if_pos rfl, rootOf_succ, hr1, if_neg (Ne.symm hne)]
+        exact rootOf_self hr2 _
+      · rw [if_neg hz1]
+        have : par' z = z := by rw [hp, updN_other _ _ _ _ hz1, hpz]
+        exact rootOf_self this _
+    · rw [if_neg hpz]
+      have hz1 : z ≠ r1 := fun e => hpz (e ▸ h1)
+      have e : par' z = par z := by rw [hp, updN_other _ _ _ _ hz1]
+      have hpz' : par' z ≠ z := by rw [e]; exact hpz
+      have i1 := h.incr z hpz
+      have i2 := h.bnd (par z)
+      have i1' := h'.incr z hpz'
+      have i2' := h'.bnd (par' z)
+      rw [e] at i1' i2'
+      rw [rootOf_succ, if_neg hpz', e,
+        rootOf_fuel h' B' (B'+1) (par z) (by omega) (by omega)]
+      exact ih (par z) (by omega)
+
+theorem link_rel {par rank par' rank' : Nat → Nat} {B B' r1 r2 : Nat}
+    (h : DInv par rank B) (h' : DInv par' rank' B') (hp : par' = updN par r1 r2)
+    (h1 : par r1 = r1) (h2 : par r2 = r2) (hne : r1 ≠ r2) (x y : Nat) :
+    rootOf (B'+1) par' x = rootOf (B'+1) par' y ↔
+      (rootOf (B+1) par x = rootOf (B+1) par y ∨
+       (rootOf (B+1) par x = r1 ∧ rootOf (B+1) par y = r2) ∨
+       (rootOf (B+1) par x = r2 ∧ rootOf (B+1) par y = r1)) := by
+  rw [rootOf_link h h' hp h1 h2 hne (B+1) x (by omega), rootOf_link h h' hp h1 h2 hne (B+1) y (by omega)]
+  split <;> split <;> omega
+
+/-! ## the state-level invariant -/
+
+def root (d : D) (x : Nat) : Nat := rootOf (d.b + 1) d.par x
+
+/-- the structure `d` on `n` nodes represents the relation `R` (on the nodes `< n`) -/
+structure DsuInv (d : D) (n : Nat) (R : Nat → Nat → Prop) : Prop where
+  inv : DInv d.par d.rank d.b
+  hn  : d.n = n
+  rel : ∀ x y, x < n → y < n → (root d x = root d y ↔ R x y)
+
+theorem DsuInv.congr {d : D} {n : Nat} {R R' : Nat → Nat → Prop} (h : DsuInv d n R)
+    (e : ∀ x y, x < n → y < n → (R x y ↔ R' x y)) : DsuInv d n R' :=
+  ⟨h.inv, h.hn, fun x y hx hy => (h.rel x y hx hy).trans (e x y hx hy)⟩
+
+theorem init_inv (n : Nat) : DsuInv (init n) n (fun x y => x = y) := by
+  refine ⟨⟨?_, ?_⟩, rfl, ?_⟩
+  · intro x hx; exact absurd rfl hx
+  · intro x; exact Nat.le_refl _
+  · intro x y _ _
+    simp [root, init, rootOf]
+
+theorem same_fst {d : D} {n : Nat} {R : Nat → Nat → Prop} (h : DsuInv d n R) (a b : Nat)
+    (ha : a < n) (hb : b < n) : (same d a b).1 = true ↔ R a b := by
+  obtain ⟨_, _, ea, eb⟩ := find2 h.inv a b
+  simp only [same, beq_iff_eq]
+  rw [ea, eb]
+  exact h.rel a b ha hb
+
+theorem same_inv {d : D} {n : Nat} {R : Nat → Nat → Prop} (h : DsuInv d n R) (a b : Nat) :
+    DsuInv (same d a b).2 n R := by
+  obtain ⟨i2, hro, _, _⟩ := find2 h.inv a b
+  refine ⟨i2, h.hn, ?_⟩
+  intro x y hx hy
+  have ex : root (same d a b).2 x = root d x := hro (d.b+1) x (by omega)
+  have ey : root (same d a b).2 y = root d y := hro (d.b+1) y (by omega)
+  rw [ex, ey]
+  exact h.rel x y hx hy
+
+theorem union_inv {d : D} {n : Nat} {R : Nat → Nat → Prop} (h : DsuInv d n R) (a b : Nat)
+    (ha : a < n) (hb : b < n) :
+    DsuInv (union d a b) n (fun x y => R x y ∨ (R x a ∧ R y b) ∨ (R x b ∧ R y a)) := by
+  obtain ⟨i2, hro, ea, eb⟩ := find2 h.inv a b
+  have hra : (find (d.b+1) (find (d.b+1) d.par a).1 b).1 (root d a) = root d a := by
+    have := rootOf_is_root i2 (d.b+1) a (by omega)
+    rwa [hro (d.b+1) a (by omega)] at this
+  have hrb : (find (d.b+1) (find (d.b+1) d.par a).1 b).1 (root d b) = root d b := by
+    have := rootOf_is_root i2 (d.b+1) b (by omega)
+    rwa [hro (d.b+1) b (by omega)] at this
+  have hR : ∀ x y, x < n → y < n → (root d x = root d y ↔ R x y) := h.rel
+  have hroot : ∀ z, rootOf (d.b+1) (find (d.b+1) (find (d.b+1) d.par a).1 b).1 z = root d z :=
+    fun z => hro (d.b+1) z (by omega)
+  have fin : ∀ x y, x < n → y < n → ∀ P : Prop,
+      (P ↔ (root d x = root d y ∨ (root d x = root d a ∧ root d y = root d b) ∨
+        (root d x = root d b ∧ root d y = root d a))) →
+      (P ↔ (R x y ∨ (R x a ∧ R y b) ∨ (R x b ∧ R y a))) := by
+    intro x y hx hy P hP
+    rw [hP, hR x y hx hy, hR x a hx ha, hR y b hy hb, hR x b hx hb, hR y a hy ha]
+  simp only [union]
+  rw [ea, eb]
+  split
+  · rename_i hc
+    refine ⟨i2, h.hn, ?_⟩
+    intro x y hx hy
+    apply fin x y hx hy
+    show rootOf (d.b+1) _ x = rootOf (d.b+1) _ y ↔ _
+    rw [hroot x, hroot y]
+    unfold root at *
+    omega
+  · rename_i hc
+    split
+    · rename_i hlt
+      have h' : DInv (updN (find (d.b+1) (find (d.b+1) d.par a).1 b).1 (root d a) (root d b)) d.rank d.b := by
+        refine ⟨?_, h.inv.bnd⟩
+        intro z hz
+        by_cases e : z = root d a
+        · subst e; rw [updN_same]; exact hlt
+        · rw [updN_other _ _ _ _ e] at hz ⊢; exact i2.incr z hz
+      refine ⟨h', h.hn, ?_⟩
+      intro x y hx hy
+      apply fin x y hx hy
+      have := link_rel i2 h' rfl hra hrb hc x y
+      rw [hroot x, hroot y] at this
+      exact this
+    · rename_i hnlt
+      split
+      · rename_i hgt
+        have h' : DInv (updN (find (d.b+1) (find (d.b+1) d.par a).1 b).1 (root d b) (root d a)) d.rank d.b := by
+          refine ⟨?_, h.inv.bnd⟩
+          intro z hz
+          by_cases e : z = root d b
+          · subst e; rw [updN_same]; exact hgt
+          · rw [updN_other _ _ _ _ e] at hz ⊢; exact i2.incr z hz
+        refine ⟨h', h.hn, ?_⟩
+        intro x y hx hy
+        apply fin x y hx hy
+        have := link_rel i2 h' rfl hrb hra (Ne.symm hc) x y
+        rw [hroot x, hroot y] at this
+        refine Iff.trans this ?_
+        unfold root at *
+        omega
+      · rename_i hngt
+        have heq : d.rank (root d a) = d.rank (root d b) := by
+          unfold root at *; omega
+        have h' : DInv (updN (find (d.b+1) (find (d.b+1) d.par a).1 b).1 (root d b) (root d a))
+            (updN d.rank (root d a) (d.rank (root d a) + 1)) (d.b + 1) := by
+          refine ⟨?_, ?_⟩
+          · intro z hz
+            by_cases e : z = root d b
+            · subst e
+              have hc' : root d b ≠ root d a := Ne.symm hc
+              rw [updN_same, updN_same, updN_other _ _ _ _ hc']
+              omega
+            · rw [updN_other _ _ _ _ e] at hz ⊢
+              have hza : z ≠ root d a := fun e' => hz (e' ▸ hra)
+              rw [updN_other _ _ _ _ hza]
+              have := i2.incr z hz
+              by_cases e2 : (find (d.b+1) (find (d.b+1) d.par a).1 b).1 z = root d a
+              · rw [e2] at this ⊢; rw [updN_same]; omega
+              · rw [updN_other _ _ _ _ e2]; exact this
+          · intro z
+            have := h.inv.bnd z
+            have := h.inv.bnd (root d a)
+            simp only [updN]
+            split <;> omega
+        refine ⟨h', h.hn, ?_⟩
+        intro x y hx hy
+        apply fin x y hx hy
+        have := link_rel i2 h' rfl hrb hra (Ne.symm hc) x y
+        rw [hroot x, hroot y] at this
+        refine Iff.trans this ?_
+        unfold root at *
+        omega
+
+/-! ## pointer jumping -/
+
+def jumpStep (acc : List Nat × Bool) (i : Nat) : List Nat × Bool :=
+  if acc.1.getD i 0 ≠ acc.1.getD (acc.1.getD i 0) 0 then (acc.1.set i (acc.1.getD (acc.1.getD i 0) 0), false)
+  else acc
+
+theorem jumpPass_eq (dsu : List Nat) :
+    jumpPass dsu = (List.range dsu.length).foldl jumpStep (dsu, true) := rfl
+
+theorem jumpStep_length (acc : List Nat × Bool) (i : Nat) : (jumpStep acc i).1.length = acc.1.length := by
+  unfold jumpStep; split <;> simp
+
+theorem jumpFold_length : ∀ (is : List Nat) (acc : List Nat × Bool),
+    (is.foldl jumpStep acc).1.length = acc.1.length
+  | [], _ => rfl
+  | i :: t, acc => by rw [List.foldl_cons, jumpFold_length t, jumpStep_length]
+
+theorem jumpPass_length (dsu : List Nat) : (jumpPass dsu).1.length = dsu.length := by
+  rw [jumpPass_eq, jumpFold_length]
+
+/-- the flag survives a pass only if no step fired: nothing changed, every visited entry was a fixed point -/
+theorem jumpFold_true : ∀ (is : List Nat) (acc : List Nat × Bool), (is.foldl jumpStep acc).2 = true →
+    acc.2 = true ∧ is.foldl jumpStep acc = acc ∧
+      ∀ i ∈ is, acc.1.getD (acc.1.getD i 0) 0 = acc.1.getD i 0 := by
+  intro is
+  induction is with
+  | nil => intro acc h; exact ⟨h, rfl, by simp⟩
+  | cons i t ih =>
+    intro acc h
+    rw [List.foldl_cons] at h ⊢
+    obtain ⟨h1, h2, h3⟩ := ih (jumpStep acc i) h
+    by_cases hp : acc.1.getD i 0 ≠ acc.1.getD (acc.1.getD i 0) 0
+    · have e : jumpStep acc i = (acc.1.set i (acc.1.getD (acc.1.getD i 0) 0), false) := by
+        simp only [jumpStep, if_pos hp]
+      rw [e] at h1
+      exact absurd h1 (by simp)
+    · have e : jumpStep acc i = acc := by simp only [jumpStep, if_neg hp]
+      rw [e] at h1 h2 h3 ⊢
+      refine ⟨h1, h2, ?_⟩
+      intro j hj
+      rcases List.mem_cons.1 hj with rfl | hj
+      · exact (Decidable.not_not.1 hp).symm
+      · exact h3 j hj
+
+theorem jumpPass_true (dsu : List Nat) (h : (jumpPass dsu).2 = true) :
+    (jumpPass dsu).1 = dsu ∧ ∀ i (hi : i < dsu.length), dsu.getD (dsu[i]) 0 = dsu[i] := by
+  rw [jumpPass_eq] at h ⊢
+  obtain ⟨_, h2, h3⟩ := jumpFold_true _ _ h
+  refine ⟨by rw [h2], ?_⟩
+  intro i hi
+  have := h3 i (List.mem_range.2 hi)
+  simpa [List.getD_eq_getElem?_getD, hi] using this
+
+theorem jumpLoop_spec : ∀ (f : Nat) (dsu l : List Nat), jumpLoop f dsu = some l →
+    l.length = dsu.length ∧ ∀ i (hi : i < l.length), l.getD (l[i]) 0 = l[i] := by
+  intro f
+  induction f with
+  | zero => intro dsu l h; simp [jumpLoop] at h
+  | succ f ih =>
+    intro dsu l h
+    simp only [jumpLoop] at h
+    split at h
+    · rename_i hf
+      obtain ⟨e, hfix⟩ := jumpPass_true dsu hf
+      have : l = dsu := by rw [← e]; exact (Option.some.inj h).symm
+      subst this
+      exact ⟨rfl, hfix⟩
+    · obtain ⟨e, hfix⟩ := ih _ l h
+      exact ⟨by rw [e, jumpPass_length], hfix⟩
+
+theorem mapM_option_length {α β : Type} (f : α → Option β) : ∀ (xs : List α) (ys : List β),
+    xs.mapM f = some ys → ys.length = xs.length := by
+  intro xs
+  induction xs with
+  | nil => intro ys h; simp at h; subst h; rfl
+  | cons x t ih =>
+    intro ys h
+    rw [List.mapM_cons] at h
+    cases hx : f x with
+    | none => simp [hx] at h
+    | some y =>
+      cases ht : t.mapM f with
+      | none => simp [hx, ht] at h
+      | some ys' =>
+        simp [hx, ht] at h
+        subst h
+        simp [ih ys' ht]
+
+theorem dsuInit_length (ids pids : List Int) (l : List Nat) (h : dsuInit ids pids = some l) :
+    l.length = min ids.length pids.length := by
+  have := mapM_option_length _ _ _ h
+  simpa using this
+
+/-! ## pointer jumping on a sorted forest -/
+
+/-- the list `l` tabulates `g` on `0..n-1` -/
+def Tab (l : List Nat) (n : Nat) (g : Nat → Nat) : Prop :=
+  l.length = n ∧ ∀ j, j < n → l.getD j 0 = g j
+
+theorem Tab.congr {l : List Nat} {n : Nat} {g g' : Nat → Nat} (h : Tab l n g)
+    (e : ∀ j, j < n → g j = g' j) : Tab l n g' :=
+  ⟨h.1, fun j hj => (h.2 j hj).trans (e j hj)⟩
+
+theorem jumpStep_tab {acc : List Nat × Bool} {n : Nat} {g : Nat → Nat} {i : Nat}
+    (h : Tab acc.1 n g) (hi : i < n) (hg : g i < n) :
+    Tab (jumpStep acc i).1 n (updN g i (g (g i))) := by
+  have e1 : acc.1.getD i 0 = g i := h.2 i hi
+  have e2 : acc.1.getD (g i) 0 = g (g i) := h.2 (g i) hg
+  unfold jumpStep
+  rw [e1, e2]
+  by_cases hp : g i ≠ g (g i)
+  · rw [if_pos hp]
+    refine ⟨by simp [h.1], ?_⟩
+    intro j hj
+    by_cases hji : j = i
+    · subst hji
+      have : j < acc.1.length := by rw [h.1]; exact hj
+      simp [List.getD_eq_getElem?_getD, List.getElem?_set, this]
+    · rw [updN_other _ _ _ _ hji, ← h.2 j hj]
+      simp [List.getD_eq_getElem?_getD, List.getElem?_set, Ne.symm hji]
+  · rw [if_neg hp]
+    refine ⟨h.1, ?_⟩
+    intro j hj
+    by_cases hji : j = i
+    · subst hji
+      rw [updN_same, h.2 j hj]
+      exact Decidable.not_not.1 hp
+    · rw [updN_other _ _ _ _ hji, h.2 j hj]
+
+theorem jumpFold_range_tab (n : Nat) (l0 : List Nat) (G : Nat → Nat → Nat)
+    (h0 : Tab l0 n (G 0))
+    (hG : ∀ i, i < n → G i i < n ∧ ∀ j, j < n → updN (G i) i (G i (G i i)) j = G (i+1) j) :
+    ∀ i, i ≤ n → Tab ((List.range i).foldl jumpStep (l0, true)).1 n (G i) := by
+  intro i
+  induction i with
+  | zero => intro _; exact h0
+  | succ i ih =>
+    intro hi
+    rw [List.range_succ, List.foldl_append, List.foldl_cons, List.foldl_nil]
+    have := jumpStep_tab (ih (by omega)) (by omega : i < n) (hG i (by omega)).1
+    exact this.congr (hG i (by omega)).2
+
+theorem jumpFold_fix : ∀ (is : List Nat) (acc : List Nat × Bool),
+    (∀ i ∈ is, acc.1.getD (acc.1.getD i 0) 0 = acc.1.getD i 0) → is.foldl jumpStep acc = acc := by
+  intro is
+  induction is with
+  | nil => intro acc _; rfl
+  | cons i t ih =>
+    intro acc h
+    have e : jumpStep acc i = acc := by
+      unfold jumpStep
+      rw [if_neg]
+      intro hne
+      exact hne (h i List.mem_cons_self).symm
+    rw [List.foldl_cons, e]
+    exact ih acc (fun j hj => h j (List.mem_cons_of_mem _ hj))
+
+theorem jumpLoop_two (f : Nat) (l0 : List Nat)
+    (hfix : ∀ i, i < (jumpPass l0).1.length →
+      (jumpPass l0).1.getD ((jumpPass l0).1.getD i 0) 0 = (jumpPass l0).1.getD i 0) :
+    jumpLoop (f+2) l0 = some (jumpPass l0).1 := by
+  have e : jumpPass (jumpPass l0).1 = ((jumpPass l0).1, true) := by
+    rw [jumpPass_eq (jumpPass l0).1]
+    exact jumpFold_fix _ _ (fun i hi => hfix i (List.mem_range.1 hi))
+  simp only [jumpLoop]
+  split
+  · rfl
+  · rw [e]; simp
+
+theorem mapM_option_eq_some {α β : Type} (f : α → Option β) (g : α → β) : ∀ (xs : List α),
+    (∀ x ∈ xs, f x = some (g x)) → xs.mapM f = some (xs.map g) := by
+  intro xs
+  induction xs with
+  | nil => intro _; simp
+  | cons x t ih =>
+    intro h
+    rw [List.mapM_cons, h x List.mem_cons_self, ih (fun y hy => h y (List.mem_cons_of_mem _ hy))]
+    simp
+
+theorem idxOf?_range (n m : Nat) (h : m < n) :
+    idxOf? ((List.range n).map Int.ofNat) (m : Int) = some m := by
+  have nd : ((List.range n).map Int.ofNat).Nodup := by
+    rw [List.Nodup, List.pairwise_map]
+    exact List.nodup_range.imp (fun hne e => hne (Int.ofNat.inj e))
+  have := nd.idxOf_getElem m (by simpa using h)
+  simp only [List.getElem_map, List.getElem_range] at this
+  unfold idxOf?
+  simp only []
+  rw [show ((m : Nat) : Int) = Int.ofNat m from rfl, this]
+  simp [h]
+
+/-! ## root repair -/
+
+theorem foldl_choice {α : Type} (g : α → α → α) (hg : ∀ a x, g a x = a ∨ g a x = x) :
+    ∀ (l : List α) (a : α), l.foldl g a = a ∨ l.foldl g a ∈ l := by
+  intro l
+  induction l with
+  | nil => intro a; exact Or.inl rfl
+  | cons x t ih =>
+    intro a
+    rw [List.foldl_cons]
+    rcases ih (g a x) with e | e
+    · rcases hg a x with e' | e'
+      · left; rw [e, e']
+      · right; rw [e, e']; exact List.mem_cons_self
+    · exact Or.inr (List.mem_cons_of_mem _ e)
+
+theorem argminOpt_lt (l : List (Option Int)) (h : 0 < l.length) : argminOpt l < l.length := by
+  unfold argminOpt
+  simp only []
+  split
+  · exact h
+  · rename_i m hm
+    apply List.idxOf_lt_length_of_mem
+    have key : ∀ g : Option Int → Option Int → Option Int, (∀ a x, g a x = a ∨ g a x = x) →
+        l.foldl g none = some m → some m ∈ l := by
+      intro g hg hm
+      have := foldl_choice g hg l none
+      rw [hm] at this
+      rcases this with e | e
+      · exact absurd e (by simp)
+      · exact e
+    refine key _ ?_ hm
+    intro a x
+    cases a with
+    | none => exact Or.inr rfl
+    | some a =>
+      cases x with
+      | none => exact Or.inl rfl
+      | some b =>
+        by_cases hlt : b < a
+        · right; simp [hlt]
+        · left; simp [hlt]
+
+/-- the row chosen for root `i` -/
+def nearestOf (ids : List Int) (dist2 : Nat → Nat → Int) (i : Nat) (dsu : List Nat) : Nat :=
+  argminOpt ((List.range ids.length).map fun j =>
+    if dsu.getD j 0 = dsu.getD i 0 then none else some (dist2 i j))
+
+theorem linkLoop_cons (ids : List Int) (dist2 : Nat → Nat → Int) (i : Nat) (rest : List Nat)
+    (pids : List Int) (dsu : List Nat) :
+    linkLoop ids dist2 (i :: rest) pids dsu =
+      linkLoop ids dist2 rest (pids.set i (ids.getD (nearestOf ids dist2 i dsu) 0))
+        (dsu.map fun l => if l = dsu.getD i 0 then dsu.getD (nearestOf ids dist2 i dsu) 0 else l) := rfl
+
+theorem nearestOf_lt (ids : List Int) (dist2 : Nat → Nat → Int) (i : Nat) (dsu : List Nat)
+    (hpos : 0 < ids.length) : nearestOf ids dist2 i dsu < ids.length := by
+  have := argminOpt_lt ((List.range ids.length).map fun j =>
+    if dsu.getD j 0 = dsu.getD i 0 then none else some (dist2 i j)) (by simpa using hpos)
+  simpa [nearestOf] using this
+
+theorem linkLoop_spec (ids : List Int) (dist2 : Nat → Nat → Int) (hpos : 0 < ids.length) :
+    ∀ (rs : List Nat) (pids : List Int) (dsu : List Nat),
+      (linkLoop ids dist2 rs pids dsu).length = pids.length ∧
+      (∀ k (h1 : k < (linkLoop ids dist2 rs pids dsu).length) (h2 : k < pids.length), k ∉ rs →
+        (linkLoop ids dist2 rs pids dsu)[k] = pids[k]) ∧
+      (∀ k (h1 : k < (linkLoop ids dist2 rs pids dsu).length), k ∈ rs →
+        (linkLoop ids dist2 rs pids dsu)[k] ∈ ids) := by
+  intro rs
+  induction rs with
+  | nil => intro pids dsu; simp [linkLoop]
+  | cons i rest ih =>
+    intro pids dsu
+    rw [linkLoop_cons]
+    have hklt := nearestOf_lt ids dist2 i dsu hpos
+    generalize nearestOf ids dist2 i dsu = k at hklt ⊢
+    have hv : ids.getD k 0 ∈ ids := by
+      have : ids.getD k 0 = ids[k] := by simp [List.getD_eq_getElem?_getD, hklt]
+      rw [this]; exact List.getElem_mem hklt
+    obtain ⟨l1, l2, l3⟩ := ih (pids.set i (ids.getD k 0))
+      (dsu.map fun l => if l = dsu.getD i 0 then dsu.getD k 0 else l)
+    refine ⟨by rw [l1, List.length_set], ?_, ?_⟩
+    · intro j h1 h2 hj
+      have hji : j ≠ i := fun e => hj (e ▸ List.mem_cons_self)
+      have hjr : j ∉ rest := fun e => hj (List.mem_cons_of_mem _ e)
+      rw [l2 j h1 (by rw [List.length_set]; exact h2) hjr, List.getElem_set_ne (Ne.symm hji)]
+    · intro j h1 hj
+      by_cases hjr : j ∈ rest
+      · exact l3 j h1 hjr
+      · have hji : j = i := by
+          rcases List.mem_cons.1 hj with e | e
+          · exact e
+          · exact absurd e hjr
+        have h2 : j < (pids.set i (ids.getD k 0)).length := by rw [← l1]; exact h1
+        rw [l2 j h1 h2 hjr]
+        subst hji
+        rw [List.getElem_set_self]
+        exact hv
+
+theorem firstRootLoc_min : ∀ (pids : List Int) (k : Nat), pids.getD k 0 = -1 → firstRootLoc pids ≤ k
+  | [], k, h => by simp [firstRootLoc]
+  | p :: ps, k, h => by
+    by_cases e : p = -1
+    · simp [firstRootLoc, e]
+    · simp only [firstRootLoc, if_neg e]
+      cases k with
+      | zero => simp at h; exact absurd h e
+      | succ k =>
+        have := firstRootLoc_min ps k (by simpa using h)
+        omega
+
+theorem mem_drop_one_of_sorted {l : List Nat} (hs : l.Pairwise (· < ·)) {m : Nat} (hm : m ∈ l)
+    (hmin : ∀ x ∈ l, m ≤ x) (x : Nat) : x ∈ l.drop 1 ↔ x ∈ l ∧ x ≠ m := by
+  cases l with
+  | nil => simp at hm
+  | cons h t =>
+    rw [List.pairwise_cons] at hs
+    have hmh : m = h := by
+      rcases List.mem_cons.1 hm with e | e
+      · exact e
+      · have := hs.1 m e
+        have := hmin h List.mem_cons_self
+        omega
+    subst hmh
+    simp only [List.drop_one, List.tail_cons, List.mem_cons]
+    constructor
+    · intro hx
+      have := hs.1 x hx
+      exact ⟨Or.inr hx, by omega⟩
+    · rintro ⟨e | e, hne⟩
+      · exact absurd e hne
+      · exact e
+
 end Dsu
